@@ -401,12 +401,32 @@ theorem next_build_ok {P : Params κ} (hG : Good P) (hfx : P.fx.gateChecks = tru
    recovery_cache_sound P cd tn H es s' hr hw,
    recovery_next_build_eq_clean hG hfx cd tn H es s' hr hw cfg hm defs fs order hwf fs0 hag⟩
 
-/-- the hypotheses of `next_build_ok` are satisfiable: the lock state in which process 0 was killed while holding and
-    process 1 is in its acquisition loop (`C10.afterHolderKilled`, a reachable state: `C10.afterHolderKilled_reach`), the store history of the first
-    example (a process killed while its result write is in flight), `Good` parameters, the empty selection -/
-example :
-    let sL := Lock.run (Lock.init true) [.step 0, .step 0, .step 0, .step 0, .step 0, .step 0, .step 1, .step 1, .crash 0]
-    sL.pc 0 = .dead ∧ (sL.pc 1).label = ".Close" ∧ Good exGoodP ∧ exGoodP.fx.gateChecks = true := by
-  refine ⟨by decide, by decide, exGoodP_good, rfl⟩
+/-- `next_build_ok` **applied**: every hypothesis is instantiated — the reachable lock state in which process 0 was killed while
+    holding and process 1 is in its acquisition loop, all others never started (`C10.afterHolderKilled`,
+    `C10.afterHolderKilled_reach`); the store history in which a process is killed while its result write is in flight (and it
+    lands); `Good` parameters with an injective key; the empty selection — and the first conjunct of the conclusion is obtained from
+    the theorem: process 1 holds the lock after at most ten of its own calls. -/
+example : ∃ k, k ≤ 10 ∧ ∃ n, (Lock.solo 1 k C10.afterHolderKilled).pc 1 = .holding n := by
+  have h1 : C10.afterHolderKilled.pc 1 = .busy 0 := by decide
+  have hme : (C10.afterHolderKilled.pc 1).contending := by rw [h1]; trivial
+  have hgone : ∀ j, j ≠ 1 → C10.afterHolderKilled.pc j = .dead ∨ C10.afterHolderKilled.pc j = .done ∨ C10.afterHolderKilled.pc j = .idle := by
+    intro j hj
+    match j with
+    | 0 => exact Or.inl (by decide)
+    | 1 => exact absurd rfl hj
+    | j + 2 => exact Or.inr (Or.inr (by simp [C10.afterHolderKilled, Lock.run, Lock.step, Lock.init, Lock.State.pc, Lock.State.setPc, Lock.State.setProc, Lock.State.releaseAll]))
+  have hw : Store.BeginsSatisfy (WritesSound exGoodP exCd2)
+      [.setBegin 1 1 .cas [1] [1] [], .setEnd 1 1 .errStored, .existsRes 2 .cas [1] .yes,
+       .setBegin 2 1 .target [] [7] [[1]], .crash 2 [1], .getRes 3 .target [] .yes] := by
+    intro p op ns k c refs _ _ k' r _ hr
+    simp [exCd2] at hr
+  obtain ⟨s', hr⟩ := Option.isSome_iff_exists.mp (by decide : (Store.run id Store.init
+      [.setBegin 1 1 .cas [1] [1] [], .setEnd 1 1 .errStored, .existsRes 2 .cas [1] .yes,
+       .setBegin 2 1 .target [] [7] [[1]], .crash 2 [1], .getRes 3 .target [] .yes]).isSome = true)
+  have hwf : WF (fun _ => none) [] :=
+    ⟨List.nodup_nil, fun l hl => by simp at hl, fun l t h => by simp at h, fun l hl => by simp at hl,
+      fun pre l suf h => by simp at h, fun l hl => by simp at hl, fun l hl => by simp at hl, fun l hl => by simp at hl⟩
+  exact (next_build_ok exGoodP_good rfl C10.afterHolderKilled_reach 1 hme hgone exCd2 (fun _ => false) id _ s' hr hw
+    ⟨true, false⟩ rfl (fun _ => none) (fun _ => none) [] hwf (fun _ => none) (fun _ _ => rfl)).1
 
 end Grog.Compose
